@@ -234,6 +234,11 @@ def main() -> int:
     }
     with open(os.path.join(EVID, f'{args.property}.json'), 'w') as f:
         json.dump(ev, f, indent=1, default=str)
+    if args.tier == 'thorough' and not os.environ.get('VERIF_EVIDENCE_DIR'):
+        # keep the last thorough run next to the (quick) evidence that `vp check` regenerates
+        os.makedirs(os.path.join(ROOT, 'evidence_thorough'), exist_ok=True)
+        with open(os.path.join(ROOT, 'evidence_thorough', f'{args.property}.json'), 'w') as f:
+            json.dump(ev, f, indent=1, default=str)
 
     print(f"[{args.property}/{args.tier}] cases={merged['evaluations']} nontrivial={merged['nontrivial']} distinct_fingerprints={len(merged['fps'])} wall={wall:.1f}s seed={args.seed}")
     print('  monitors: ' + ', '.join(f'{k}={v}' for k, v in sorted(merged['counters'].items()) if not k.startswith('hang_'))[:1500])
